@@ -20,7 +20,9 @@ import importlib
 import json
 import multiprocessing as mp
 import os
+import signal
 import sys
+import threading
 import time
 import traceback
 import warnings
@@ -170,14 +172,46 @@ def _lib_frame(tb) -> Optional[str]:
     return found
 
 
+class CaseTimeout(BaseException):
+    """raised by the per-case watchdog (SIGALRM) inside whatever frame is executing"""
+
+
+CASE_LIMIT = float(os.environ.get('PV_CASE_LIMIT', '300'))
+
+
+def _on_alarm(signum, frame):
+    raise CaseTimeout()
+
+
 def safe_check(part: Part, case, prop_id: str) -> Result:
     """Run check_case; an exception escaping through a peptacular frame is an observable of the
     library on an input of the property's domain -> Failure; one without a library frame is a
-    harness bug -> HarnessError."""
+    harness bug -> HarnessError.  A per-case watchdog (PV_CASE_LIMIT seconds, default 300 - four to
+    five orders of magnitude above a normal case) turns a library call that does not come back into
+    a Failure instead of a check that never ends; if the limit expires outside library code it is a
+    harness error."""
+    armed = False
     try:
-        with warnings.catch_warnings():
-            warnings.simplefilter('ignore')
-            return part.check_case(case)
+        if threading.current_thread() is threading.main_thread():
+            signal.signal(signal.SIGALRM, _on_alarm)
+            signal.setitimer(signal.ITIMER_REAL, CASE_LIMIT)
+            armed = True
+        try:
+            with warnings.catch_warnings():
+                warnings.simplefilter('ignore')
+                return part.check_case(case)
+        finally:
+            if armed:
+                signal.setitimer(signal.ITIMER_REAL, 0)
+    except CaseTimeout as e:
+        frame = _lib_frame(e.__traceback__)
+        if frame is None:
+            raise HarnessError(f"{prop_id}/{part.name}: case exceeded {CASE_LIMIT:.0f}s outside library code\n"
+                               f"case={json.dumps(_jsonable(case))[:2000]}")
+        r = Result()
+        r.fail('every call on an input of the domain returns or raises', f'{prop_id}/{part.name}/no-result-within-time-limit/{frame}',
+               limit_s=CASE_LIMIT)
+        return r
     except HarnessError:
         raise
     except RecursionError as e:
